@@ -10,6 +10,8 @@ import xstate_common as xc
 
 
 def check(run):
+    if xc.maybe_replay(run):
+        return
     quick = run.tier == "quick"
     run.build_harness()
     run.tlc_mc("XState.tla", "MC_XState.cfg" if quick else "MC_XState_thorough.cfg", timeout=3000)
